@@ -700,6 +700,10 @@ def write_evidence(pid, tier, seed, level, results, known_hits, viol, undec, wal
         "explanation": "proof-level numbers (obligations/discharged) count only complete obligations: Verus functions/lemmas (unbounded) and Kani harnesses that are loop-free or constant-bounded over the full stated domain. Bounded Kani harnesses are listed under `bounded` and are never counted as proved.",
         "exhaustive": False,
     }
+    if n_obl == 0:
+        # no complete obligation ran in this tier: do not present proof-style counts at all (generic keys remain)
+        cov.pop("obligations"); cov.pop("discharged")
+        cov["explanation"] += " In this run no complete obligation was part of the tier: only bounded harnesses ran."
     ev = {"property_id": pid, "tier": tier, "seed": seed, "level": level, "coverage": cov,
           "assumptions": assumptions, "wall_s": round(wall, 1), "violations": len(viol)}
     os.makedirs(os.path.join(VERIF, "evidence"), exist_ok=True)
